@@ -706,6 +706,21 @@ func packagePrepareWalkFn(root string, ignoreRules *ignorefiles.Ruleset) filepat
 		// valid for inclusion in a source bundle.
 		// We only allow regular files, directories, and symlinks to either
 		// of those as long as they are under the root directory prefix.
+		//
+		// A symlink must stay under the root directory by its own text too:
+		// the package is still in a temporary directory at this point and is
+		// renamed afterwards, so a target that names that directory (an
+		// absolute path, or a relative one that leaves the package and comes
+		// back in) would dangle in the finished bundle.
+		if info.Mode()&os.ModeSymlink != 0 {
+			target, err := os.Readlink(absPath)
+			if err != nil {
+				return fmt.Errorf("failed to read symlink %q: %w", relPath, err)
+			}
+			if filepath.IsAbs(target) || !filepath.IsLocal(filepath.Join(filepath.Dir(relPath), target)) {
+				return fmt.Errorf("module package path %q is symlink traversing out of the package root", relPath)
+			}
+		}
 		absRoot, err := filepath.Abs(root)
 		if err != nil {
 			return fmt.Errorf("failed to get absolute path for root directory %q: %w", root, err)
